@@ -258,7 +258,12 @@ func (pm *ProtocolManager) handleMsg(p *peer) error {
 		}
 		if last == nil {
 			last = pm.chainman.CurrentBlock()
-			request.Amount = last.Height - request.Number + 1
+			// what is available up to the frontier may only shrink the (already capped) request:
+			// Number+Amount-1 wraps for Number=0/Amount=0 and height 0 does not exist, in which
+			// cases the recomputed amount covered the whole chain
+			if available := last.Height - request.Number + 1; available < request.Amount {
+				request.Amount = available
+			}
 		}
 		if last.Height < request.Number {
 			return p.SendBlockHashes(nil)
